@@ -610,8 +610,28 @@ func kinField(out, name string) string {
 
 func kinesisMonitor(lines, outs []string, m *Model) []Violation {
 	var vs []Violation
+	budget := -1
 	for i, l := range lines {
 		w := strings.Fields(l)
+		if len(w) == 3 && w[1] == "cfg" {
+			budget, _ = strconv.Atoi(w[2])
+		}
+		// C17: a sink that keeps failing stops the worker within its retry budget (n retries = n+1 calls)
+		if i < len(outs) && budget >= 0 && len(w) == 4 && w[1] == "batch" && strings.HasPrefix(outs[i], "calls=") {
+			f := strings.Fields(outs[i])
+			ncalls := 0
+			if c := strings.TrimPrefix(f[0], "calls="); c != "" && c != "-" {
+				ncalls = strings.Count(c, "|") + 1
+			}
+			if ncalls > budget+1 {
+				vs = append(vs, Violation{"C17", fmt.Sprintf("the Kinesis worker made %d PutRecords calls for one batch with a retry budget of %d: a sink failing past the budget does not stop it (%s => %s)", ncalls, budget, l, outs[i]), ""})
+				return vs
+			}
+			if strings.Contains(outs[i], "result=exhausted") && !strings.Contains(outs[i], "term=1") {
+				vs = append(vs, Violation{"C17", "retry budget exhausted but the termination signal was not raised: " + outs[i], ""})
+				return vs
+			}
+		}
 		if i >= len(outs) || len(w) != 4 || w[1] != "batch" || !strings.HasPrefix(outs[i], "calls=") {
 			continue
 		}
